@@ -18,13 +18,14 @@ NEEDS_REF = True
 RULE = ('seeded generation inside a fixed list of cells (integrand family x rule x API form x interval kind x precision class); '
         'a case is non-trivial when it is inside the a-priori envelope and the integrand is not constant; '
         'distinct = distinct (family, parameters, points, precision, rule, api, variant)')
-ASSUMPTIONS = ['closed forms are mathematically correct (each was cross-checked once against high-precision quadrature of the reference release)',
+ASSUMPTIONS = ['closed forms are mathematically correct (every family agrees with the numerical results of the tree to ~2^-p on hundreds of in-envelope cases per run; a wrong closed form would show up as a systematic violation)',
                'mpmath 1.3.0 elementary functions / erfc at 2p+200 bits are accurate to 2^-(p+60) (checked per case by a second evaluation at 2p+264 bits)',
                'vf.calcq exact Fraction / Gaussian-rational arithmetic is correct',
                'envelope fixed a priori: analytic inside the Bernstein ellipse rho>=3 of every sub-interval, |k|(b-a)<=40, '
                'L1-conditioning <= 2^8, infinite ranges only with Gaussian / e^(-cx) decay (1/4<=c<=4) and the tanh-sinh rule '
                '(the documentation says Gauss-Legendre handles infinite intervals worse)']
-SHARD_TIMEOUT = {'quick': 420, 'thorough': 3000}
+_TS = float(__import__('os').environ.get('VERIF_DEV_TIMEOUT_SCALE', '1'))     # development only (overloaded machine)
+SHARD_TIMEOUT = {'quick': int(420 * _TS), 'thorough': int(3000 * _TS)}
 LEVEL_TEXT = ('exploration: ~3*10^3 (quick) / ~4*10^4 (thorough) integrals of the real code decided against closed forms, '
               'with metamorphic monitors (reversal, splitting, alias equality, error=True) and an invariant monitor on every '
               'get_nodes call (moments of the returned node set, cache identity)')
@@ -32,6 +33,8 @@ LEVEL_NOTE = ('trusted base: vf/calcq.py, Fraction arithmetic, reference release
               '(tier: closed-form via reference release); integrands / intervals not generated are not covered')
 TECHNIQUE = 'runtime monitoring: closed-form oracle on results + invariant monitor at the node-cache hook + metamorphic monitors'
 
+import os
+DEV_SCALE = float(os.environ.get('VERIF_DEV_SCALE', '1'))      # development only (mutant sweeps on a busy machine); 1 in every registered command
 TOL = 10           # |v - V| <= 2^(TOL-p) max(1,|V|)
 KAPPA_MAX = 8      # log2 of the admitted L1 conditioning  int|f| / max(1,|V|)
 RHO_SUM = F(5, 3)  # (|s-a|+|s-b|)/|b-a| >= (rho+1/rho)/2 = 5/3  <=>  singularity s outside the Bernstein ellipse rho=3
@@ -1323,7 +1326,7 @@ def shards(tier, seed):
             n = 330
             if i % 3 == 0:
                 precs.append(PRECS_HIGH[(i // 3) % 3])
-        out.append({'precs': precs, 'n': n})
+        out.append({'precs': precs, 'n': max(4, int(n * DEV_SCALE))})
     return out
 
 
